@@ -174,6 +174,7 @@ STREAMS = [
     ("ok", "F0", 2, 4, 0, 2, 2, "quick", 300),
     ("ok", "G", 3, 0, 4, 2, 2, "quick", 300),
     ("ok", "F- G", 3, 4, 3, 2, 2, "quick", 900),
+    ("ok", "F- F-", 2, 2, 0, 2, 2, "quick", 900),      # two pieces of one record next to each other (abutting or not, either order)
     ("ok", "F+ G F-", 3, 3, 2, 2, 2, "thorough", 3600),
     ("ok", "F+ F-", 2, 3, 0, 2, 2, "thorough", 3600),
     ("ok", "F+", 1, 3, 0, 3, 3, "thorough", 1800),
@@ -201,6 +202,7 @@ C13_STREAMS = [
 C14_STREAMS = [
     ("rev", "F+", 3, 5, 0, 2, 2, "quick", 600),
     ("rev", "F-", 3, 5, 0, 2, 2, "quick", 600),
+    ("rev", "F- F-", 2, 2, 0, 2, 2, "quick", 900),
     ("rev", "F- G", 3, 3, 2, 2, 2, "thorough", 1800),
     ("rev", "F- F+", 2, 3, 0, 2, 2, "thorough", 3600),
     ("rev", "F+ G F-", 3, 3, 2, 2, 2, "thorough", 3600),
